@@ -180,6 +180,21 @@ func (x *exec) evalClause(cl *Clause, s *State, at token.Pos) Value {
 	return env.eval(be.expr)
 }
 
+// evalClauseAt evaluates a clause in the scope of source position src (a call
+// site inside a loop body: the loop's locals are visible).
+func (x *exec) evalClauseAt(cl *Clause, s *State, src token.Pos) Value {
+	e := x.e
+	pkg := e.P.PkgOf(x.fn)
+	be := e.bind(cl, x.fn, nil, src, x.fn.Signature, pkg.Types, e.P.Fset)
+	if be.err != nil {
+		x.bindFail(cl, be.err)
+		return e.C.True()
+	}
+	env := x.ownEnv(s)
+	env.info = be.info
+	return env.eval(be.expr)
+}
+
 func (x *exec) evalClauseBool(cl *Clause, s *State, at token.Pos) *Term {
 	v := x.evalClause(cl, s, at)
 	t, ok := v.(*Term)
